@@ -410,3 +410,6 @@ def _loop_sig(f, h, body):
     cs = sorted({short(callee_of(f.blocks[b]['term'])).split('::')[-1] for b in body
                  if f.blocks[b]['term']['k'] == 'call' and callee_of(f.blocks[b]['term'])})
     return ','.join(cs)[:80] + '#%d' % len(body)
+
+# as-built addendum
+EXPLANATION += ' As built (DESIGN 9.2): R3 (necessary conditions of print/read-back): radix formats apply to an unsigned magnitude; every printed radix has a literal form; digits reach from_str_radix only after a test of the collected text; no narrowing cast or wrapping operation between parser and literal.'
